@@ -8,6 +8,7 @@ import (
 	"math/big"
 	"sort"
 	"strings"
+	"sync"
 )
 
 // Sort is an SMT sort, kept as its SMT-LIB spelling.
@@ -48,6 +49,7 @@ type Term struct {
 }
 
 type TermPool struct {
+	mu    sync.Mutex
 	tab   map[string]*Term
 	n     int
 	fresh map[string]int
@@ -76,6 +78,8 @@ func (p *TermPool) mk(op, name string, s Sort, args ...*Term) *Term {
 		fmt.Fprintf(&sb, "|%d", a.id)
 	}
 	k := sb.String()
+	p.mu.Lock()
+	defer p.mu.Unlock()
 	if t, ok := p.tab[k]; ok {
 		return t
 	}
@@ -90,8 +94,11 @@ func (p *TermPool) Var(name string, s Sort) *Term { return p.mk("var", name, s) 
 // Fresh returns a new variable with a unique name derived from base.
 func (p *TermPool) Fresh(base string, s Sort) *Term {
 	base = sanitize(base)
+	p.mu.Lock()
 	p.fresh[base]++
-	return p.Var(fmt.Sprintf("%s!%d", base, p.fresh[base]), s)
+	n := p.fresh[base]
+	p.mu.Unlock()
+	return p.Var(fmt.Sprintf("%s!%d", base, n), s)
 }
 
 func sanitize(s string) string {
@@ -454,7 +461,13 @@ func (p *TermPool) App(name string, ret Sort, args ...*Term) *Term {
 	for _, a := range args {
 		sig.Args = append(sig.Args, a.S)
 	}
-	if old, ok := p.UF[name]; ok {
+	p.mu.Lock()
+	old, ok := p.UF[name]
+	if !ok {
+		p.UF[name] = sig
+	}
+	p.mu.Unlock()
+	if ok {
 		if old.Ret != ret || len(old.Args) != len(sig.Args) {
 			panic("UF redeclared with different signature: " + name)
 		}
@@ -463,8 +476,6 @@ func (p *TermPool) App(name string, ret Sort, args ...*Term) *Term {
 				panic(fmt.Sprintf("UF %s arg %d sort mismatch: %s vs %s", name, i, old.Args[i], sig.Args[i]))
 			}
 		}
-	} else {
-		p.UF[name] = sig
 	}
 	return p.mk("uf", name, ret, args...)
 }
@@ -704,7 +715,9 @@ func (p *TermPool) Script(hyps []*Term, comment string) string {
 	}
 	sort.Strings(un)
 	for _, n := range un {
+		p.mu.Lock()
 		sig := p.UF[n]
+		p.mu.Unlock()
 		as := make([]string, len(sig.Args))
 		for i, a := range sig.Args {
 			as[i] = string(a)
